@@ -16,6 +16,7 @@ def run(run):
         "domain of the order theorems: per sort column all numbers (integers exactly representable as float64), or all datetimes within the UnixNano range, or all text, plus NULLs - as in the property; mixed integers beyond 2^53 with floats are outside (reported under their own signature)",
     ]
     run.regen("sortfacts", ["go", "run", "-C", "extract/sortfacts", "."], "Csvq/Gen/SortFacts.lean")
+    run.regen("limitfacts", ["go", "run", "-C", "extract/limitfacts", "."], "Csvq/Gen/LimitFacts.lean")
     run.obligations_for(["Csvq.Props.C07"])
     run.stream("c07", 1800 if q else 16000)
     if not q:
